@@ -11,11 +11,16 @@ from . import linops as L
 from . import nlops as NL
 
 
-def functional_recipes():
+def functional_recipes(tier='quick'):
     R = []
+    seen = set()
 
     def add(family, opts, fn):
-        R.append((family, opts, fn))
+        key = (family, tuple(sorted((k, str(v)) for k, v in opts.items())))
+        if key in seen:                 # (family, options) identifies a recipe
+            return
+        seen.add(key)
+        R.append((family, dict(opts), fn))
     S = odl.solvers
     spaces = [('rn', odl.rn(3)), ('rn-array', odl.rn(3, weighting=[1.0, 2.0, 0.5])), ('discr', odl.uniform_discr(0, 2, 4))]
     for sn, sp in spaces:
@@ -78,7 +83,272 @@ def functional_recipes():
         add('Functional.' + name, {'derived': 'convex_conj'}, lambda mk=mk: mk().convex_conj)
         add('Functional.' + name, {'derived': 'convex_conj.proximal'}, lambda mk=mk: mk().convex_conj.proximal(0.5))
         add('Functional.' + name, {'derived': 'gradient'}, lambda mk=mk: mk().gradient)
+    wide_functional_recipes(tier, add)
     return R
+
+
+DERIVED_ALL = ('self', 'gradient', 'proximal', 'convex_conj', 'convex_conj.proximal', 'convex_conj.gradient')
+# functionals on single-precision or complex spaces are listed through their proximals only: C06 consumes the forms
+# 'self' / 'gradient' / 'convex_conj(.gradient)' with central differences at h = 2^-6..2^-8, which are below float32
+# resolution, and real-valued functionals on complex spaces are differentiable in the C = R^2 sense only
+DERIVED_PROX = ('proximal', 'convex_conj.proximal')
+
+
+def _add_functional(add, name, opts, mk, kinds=DERIVED_ALL, sigma=0.5):
+    fam = 'Functional.' + name
+    for kind in kinds:
+        o = dict(opts, derived=kind)
+        if kind == 'self':
+            add(fam, o, mk)
+        elif kind == 'gradient':
+            add(fam, o, lambda mk=mk: mk().gradient)
+        elif kind == 'proximal':
+            add(fam, o, lambda mk=mk: mk().proximal(sigma))
+        elif kind == 'convex_conj':
+            add(fam, o, lambda mk=mk: mk().convex_conj)
+        elif kind == 'convex_conj.proximal':
+            add(fam, o, lambda mk=mk: mk().convex_conj.proximal(sigma))
+        elif kind == 'convex_conj.gradient':
+            add(fam, o, lambda mk=mk: mk().convex_conj.gradient)
+
+
+def wide_functional_recipes(tier, add):
+    """Every Functional class x constructor options x spaces; derived functionals of derived functionals (depth 2)."""
+    from collections import OrderedDict as OD
+    from . import catutil as U
+    from .linops import _space_axes, _combos, _sp, _o
+    S = odl.solvers
+    vec, posvec = U.vec, U.posvec
+    real_axes = _space_axes(fields=('real',), precs=('double',))
+    prox_axes = _space_axes()          # all spaces; single precision / complex ones are used through proximals only
+
+    def kinds_of(c):
+        return DERIVED_ALL if (c['field'] == 'real' and c['prec'] == 'double') else DERIVED_PROX
+
+    def one(sp):
+        return sp.one()
+
+    # ---- norms and indicator functions of balls
+    for c in _combos(tier, OD([('exponent', ['1', '2', 'inf', '1.5', '3'])]), prox_axes):
+        lab, sp = _sp(c)
+        p = float(c['exponent'])
+        _add_functional(add, 'LpNorm', _o(c, lab, 'exponent'), lambda sp=sp, p=p: S.LpNorm(sp, p), kinds_of(c))
+        _add_functional(add, 'IndicatorLpUnitBall', _o(c, lab, 'exponent'), lambda sp=sp, p=p: S.IndicatorLpUnitBall(sp, p), kinds_of(c))
+    for c in _combos(tier, OD([('cls', ['L1Norm', 'L2Norm', 'L2NormSquared', 'ZeroFunctional', 'IndicatorNonnegativity'])]), prox_axes,
+                     lambda c: c['field'] == 'real' or c['cls'] != 'IndicatorNonnegativity'):
+        lab, sp = _sp(c)
+        _add_functional(add, c['cls'], _o(c, lab), lambda sp=sp, n=c['cls']: getattr(S, n)(sp), kinds_of(c))
+    for c in _combos(tier, OD([('constant', ['zero', 'pos', 'neg'])]), prox_axes):
+        lab, sp = _sp(c)
+        a = {'zero': 0.0, 'pos': 2.0, 'neg': -1.5}[c['constant']]
+        _add_functional(add, 'ConstantFunctional', _o(c, lab, 'constant'), lambda sp=sp, a=a: S.ConstantFunctional(sp, a), kinds_of(c))
+        _add_functional(add, 'IndicatorZero', _o(c, lab, 'constant'), lambda sp=sp, a=a: S.IndicatorZero(sp, a), kinds_of(c))
+    add('Functional.IndicatorZero', {'space': 'rn', 'constant': 'default', 'derived': 'self'}, lambda: S.IndicatorZero(odl.rn(3)))
+    # ---- functionals on a field
+    for fn_, fld in (('field-real', odl.RealNumbers()), ('field-complex', odl.ComplexNumbers())):
+        for sn, a in (('pos', 3.0), ('zero', 0.0), ('neg', -1.5), ('complex-general', 1 - 2j)):
+            if sn == 'complex-general' and fn_ == 'field-real':
+                continue
+            _add_functional(add, 'ScalingFunctional', {'space': fn_, 'scale': sn}, lambda fld=fld, a=a: S.ScalingFunctional(fld, a),
+                            ('self', 'gradient', 'convex_conj'))
+        _add_functional(add, 'IdentityFunctional', {'space': fn_}, lambda fld=fld: S.IdentityFunctional(fld), ('self', 'gradient', 'convex_conj'))
+    # ---- box constraints: bounds none / scalar / element(-like)
+    BND = OD([('none', lambda sp: None), ('scalar', lambda sp: 0.75), ('element', lambda sp: 0.75 * sp.one()),
+              ('array-like', lambda sp: (0.75 * sp.one()).asarray().tolist())])
+
+    def box_ok(c):
+        return c['field'] == 'real' and not (c['lower'] == 'none' and c['upper'] == 'none' and False)
+    for c in _combos(tier, OD([('lower', list(BND)), ('upper', list(BND))]), prox_axes, box_ok):
+        lab, sp = _sp(c)
+
+        def mk(sp=sp, c=c):
+            lo, up = BND[c['lower']](sp), BND[c['upper']](sp)
+            if up is not None:
+                up = 1.25 if c['upper'] == 'scalar' else (1.25 * sp.one() if c['upper'] == 'element' else (1.25 * sp.one()).asarray().tolist())
+            return S.IndicatorBox(sp, lo, up)
+        _add_functional(add, 'IndicatorBox', _o(c, lab, 'lower', 'upper'), mk, kinds_of(c))
+    # ---- Kullback-Leibler family: prior none / element, also starting from the conjugate classes
+    from odl.solvers.functional.default_functionals import KullbackLeiblerConvexConj, KullbackLeiblerCrossEntropyConvexConj
+    KLS = OD([('KullbackLeibler', S.KullbackLeibler), ('KullbackLeiblerCrossEntropy', S.KullbackLeiblerCrossEntropy),
+              ('KullbackLeiblerConvexConj', KullbackLeiblerConvexConj),
+              ('KullbackLeiblerCrossEntropyConvexConj', KullbackLeiblerCrossEntropyConvexConj)])
+    for c in _combos(tier, OD([('cls', list(KLS)), ('prior', ['none', 'default', 'element'])]),
+                     _space_axes(fields=('real',)), None):
+        lab, sp = _sp(c)
+
+        def mk(sp=sp, c=c):
+            if c['prior'] == 'default':
+                return KLS[c['cls']](sp)
+            return KLS[c['cls']](sp, prior=None if c['prior'] == 'none' else posvec(sp))
+        _add_functional(add, c['cls'], _o(c, lab, 'prior'), mk, kinds_of(c))
+    # ---- Huber: gamma small / large / zero ; tensor spaces and vector fields
+    for c in _combos(tier, OD([('gamma', ['0.5', '2.0', 'zero'])]), prox_axes, lambda c: c['field'] == 'real'):
+        lab, sp = _sp(c)
+        g = {'0.5': 0.5, '2.0': 2.0, 'zero': 0}[c['gamma']]
+        _add_functional(add, 'Huber', _o(c, lab, 'gamma'), lambda sp=sp, g=g: S.Huber(sp, g), kinds_of(c))
+    # ---- simplex / sum constraint
+    for c in _combos(tier, OD([('size', ['default', '2.5']), ('sum_rtol', ['default', 'given'])]), prox_axes, lambda c: c['field'] == 'real'):
+        lab, sp = _sp(c)
+        kw = {} if c['sum_rtol'] == 'default' else {'sum_rtol': 1e-6}
+
+        def mks(sp=sp, c=c, kw=kw):
+            return S.IndicatorSimplex(sp, **dict(kw, **({} if c['size'] == 'default' else {'diameter': 2.5})))
+
+        def mkc(sp=sp, c=c, kw=kw):
+            return S.IndicatorSumConstraint(sp, **dict(kw, **({} if c['size'] == 'default' else {'sum_value': 2.5})))
+        _add_functional(add, 'IndicatorSimplex', _o(c, lab, 'size', 'sum_rtol'), mks, kinds_of(c))
+        _add_functional(add, 'IndicatorSumConstraint', _o(c, lab, 'size', 'sum_rtol'), mkc, kinds_of(c))
+    # ---- quadratic forms: operator none / symmetric / non-symmetric ; vector none / given ; constant zero / non-zero
+    def qf_ok(c):
+        if c['operator'] == 'none' and c['vector'] == 'none':
+            return False
+        if c['operator'] == 'matrix' and (c['kind'] != 'rn' or c['shape'] != '1d' or c['weighting'] != 'none'):
+            return False
+        return True
+    for c in _combos(tier, OD([('operator', ['none', 'scaling', 'multiply', 'matrix']), ('vector', ['none', 'given']),
+                               ('constant', ['zero', 'nonzero'])]), real_axes, qf_ok):
+        lab, sp = _sp(c)
+
+        def mk(sp=sp, c=c):
+            A = {'none': None, 'scaling': lambda: odl.ScalingOperator(sp, 2.0), 'multiply': lambda: odl.MultiplyOperator(posvec(sp)),
+                 'matrix': lambda: odl.MatrixOperator(np.array([[2.0, 1.0, 0.0], [0.0, 1.0, -1.0], [0.5, 0.0, 1.0]]))}[c['operator']]
+            return S.QuadraticForm(None if A is None else A(), vec(sp) if c['vector'] == 'given' else None,
+                                   1.5 if c['constant'] == 'nonzero' else 0)
+        _add_functional(add, 'QuadraticForm', _o(c, lab, 'operator', 'vector', 'constant'), mk)
+    # ---- Moreau envelope
+    for c in _combos(tier, OD([('functional', ['L1Norm', 'L2NormSquared', 'IndicatorBox', 'L2Norm']), ('sigma', ['default', '0.5', '2.0'])]),
+                     real_axes):
+        lab, sp = _sp(c)
+
+        def mk(sp=sp, c=c):
+            f = {'L1Norm': lambda: S.L1Norm(sp), 'L2NormSquared': lambda: S.L2NormSquared(sp), 'L2Norm': lambda: S.L2Norm(sp),
+                 'IndicatorBox': lambda: S.IndicatorBox(sp, 0.75, 1.25)}[c['functional']]()
+            return S.MoreauEnvelope(f) if c['sigma'] == 'default' else S.MoreauEnvelope(f, sigma=float(c['sigma']))
+        _add_functional(add, 'MoreauEnvelope', _o(c, lab, 'functional', 'sigma'), mk, ('self', 'gradient', 'convex_conj'))
+    # ---- Rosenbrock
+    for n in (2, 3, 4):
+        for sc in ('default', '2.0'):
+            _add_functional(add, 'RosenbrockFunctional', {'space': 'rn', 'size': str(n), 'scale': sc},
+                            lambda n=n, sc=sc: S.RosenbrockFunctional(odl.rn(n)) if sc == 'default' else S.RosenbrockFunctional(odl.rn(n), scale=2.0),
+                            ('self', 'gradient'))
+    _add_functional(add, 'RosenbrockFunctional', {'space': 'rn-const', 'size': '3', 'scale': '2.0'},
+                    lambda: S.RosenbrockFunctional(odl.rn(3, weighting=2.0), scale=2.0), ('self', 'gradient'))
+    # ---- vector-field functionals
+    VB = OD([('rn', lambda f='real', p='double': U.mk_space('rn', f, p)[1]), ('discr2d', lambda f='real', p='double': U.mk_space('discr', f, p, shape='2d')[1]),
+             ('rn-array', lambda f='real', p='double': U.mk_space('rn', f, p, weighting='array')[1])])
+    for c in U.cross(tier, OD([('exponent', ['default', '1', '2', 'inf', '1.5']), ('length', ['1', '2', '3']), ('base', list(VB)),
+                               ('pspace-weighting', ['none', 'const', 'array']), ('field', ['real', 'complex']), ('prec', ['double', 'single'])])):
+        def vf(c=c):
+            return U.mk_pspace(VB[c['base']](c['field'], c['prec']), 'power' + c['length'], c['pspace-weighting'])
+        kw = {} if c['exponent'] == 'default' else {'exponent': float(c['exponent'])}
+        o = {k: c[k] for k in ('exponent', 'length', 'base', 'pspace-weighting')}
+        if c['field'] == 'complex':
+            o['dtype'] = 'complex'
+        if c['prec'] == 'single':
+            o['prec'] = 'single'
+        kinds = DERIVED_ALL if (c['field'] == 'real' and c['prec'] == 'double') else DERIVED_PROX
+        _add_functional(add, 'GroupL1Norm', o, lambda vf=vf, kw=kw: S.GroupL1Norm(vf(), **kw), kinds)
+        _add_functional(add, 'IndicatorGroupL1UnitBall', o, lambda vf=vf, kw=kw: S.IndicatorGroupL1UnitBall(vf(), **kw), kinds)
+    for c in U.cross(tier, OD([('gamma', ['0.5', '2.0', 'zero']), ('length', ['1', '2', '3']), ('base', list(VB)),
+                               ('pspace-weighting', ['none', 'const', 'array'])])):
+        def vf(c=c):
+            return U.mk_pspace(VB[c['base']](), 'power' + c['length'], c['pspace-weighting'])
+        g = {'0.5': 0.5, '2.0': 2.0, 'zero': 0}[c['gamma']]
+        _add_functional(add, 'Huber-vf', dict(c), lambda vf=vf, g=g: S.Huber(vf(), g))
+    for c in U.cross(tier, OD([('outer_exp', ['default', '1', '2', 'inf']), ('singular_vector_exp', ['default', '1', '2', 'inf']),
+                               ('shape', ['2x2', '2x3', '3x2', '1x2']), ('base', ['rn', 'discr2d'])])):
+        def sp(c=c):
+            n, m = [int(t) for t in c['shape'].split('x')]
+            return odl.ProductSpace(odl.ProductSpace(VB[c['base']](), m), n)
+        kw = {}
+        if c['outer_exp'] != 'default':
+            kw['outer_exp'] = float(c['outer_exp'])
+        if c['singular_vector_exp'] != 'default':
+            kw['singular_vector_exp'] = float(c['singular_vector_exp'])
+        _add_functional(add, 'NuclearNorm', dict(c), lambda sp=sp, kw=kw: S.NuclearNorm(sp(), **kw), ('self', 'proximal', 'convex_conj', 'convex_conj.proximal'))
+        _add_functional(add, 'IndicatorNuclearNormUnitBall', dict(c), lambda sp=sp, kw=kw: S.IndicatorNuclearNormUnitBall(sp(), **kw),
+                        ('self', 'proximal', 'convex_conj', 'convex_conj.proximal'))
+    # ---- separable sums: argument forms
+    def seps(form, w):
+        X = odl.rn(2) if w == 'none' else odl.rn(2, weighting=[1.0, 4.0])
+        Y = odl.uniform_discr(0, 1, 3)
+        f, g, h = S.L1Norm(X), S.L2NormSquared(X), S.KullbackLeibler(X, prior=posvec(X))
+        return {'two': lambda: S.SeparableSum(f, g), 'one': lambda: S.SeparableSum(h), 'three': lambda: S.SeparableSum(f, g, h),
+                'int-form': lambda: S.SeparableSum(f, 3), 'int-one': lambda: S.SeparableSum(g, 1),
+                'different-spaces': lambda: S.SeparableSum(f, S.L2Norm(Y)),
+                'nested': lambda: S.SeparableSum(S.SeparableSum(f, g), S.SeparableSum(g, 2)),
+                'with-indicator': lambda: S.SeparableSum(S.IndicatorBox(X, 0.75, 1.25), f)}[form]()
+    for form in ('two', 'one', 'three', 'int-form', 'int-one', 'different-spaces', 'nested', 'with-indicator'):
+        for w in ('none', 'array'):
+            _add_functional(add, 'SeparableSum', {'parts': form, 'comp-weighting': w}, lambda form=form, w=w: seps(form, w))
+
+    # ---- derived functionals (depth 1) and derived functionals of derived functionals (depth 2)
+    INNER = OD([('L1Norm', lambda sp: S.L1Norm(sp)), ('L2NormSquared', lambda sp: S.L2NormSquared(sp)), ('L2Norm', lambda sp: S.L2Norm(sp)),
+                ('KullbackLeibler', lambda sp: S.KullbackLeibler(sp, prior=posvec(sp))), ('Huber', lambda sp: S.Huber(sp, 0.5))])
+
+    def shift(sp):
+        return sp.one()
+
+    def M32(sp):
+        return odl.MatrixOperator(np.array([[1.0, 2.0, 0.0], [-1.0, 0.5, 3.0], [0.0, 1.0, 1.0]]), domain=sp, range=sp)
+    D1 = OD([
+        ('left-scaled', lambda f, sp: 2.0 * f),
+        ('left-scaled-neg', lambda f, sp: S.FunctionalLeftScalarMult(f, -1.5)),
+        ('left-scaled-zero', lambda f, sp: S.FunctionalLeftScalarMult(f, 0.0)),
+        ('left-scaled-one', lambda f, sp: S.FunctionalLeftScalarMult(f, 1)),
+        ('right-scaled', lambda f, sp: f * 2.0),
+        ('right-scaled-neg', lambda f, sp: S.FunctionalRightScalarMult(f, -0.5)),
+        ('right-scaled-zero', lambda f, sp: f * 0.0),
+        ('right-vector', lambda f, sp: f * posvec(sp)),
+        ('right-vector-mixed-sign', lambda f, sp: S.FunctionalRightVectorMult(f, vec(sp))),
+        ('sum', lambda f, sp: f + S.L2NormSquared(sp)),
+        ('scalar-sum', lambda f, sp: f + 3.0),
+        ('scalar-sum-neg', lambda f, sp: S.FunctionalScalarSum(f, -1.5)),
+        ('difference', lambda f, sp: f - S.L2NormSquared(sp)),
+        ('translated', lambda f, sp: f.translated(shift(sp))),
+        ('translated-array-like', lambda f, sp: S.FunctionalTranslation(f, shift(sp).asarray().tolist())),
+        ('quadratic-perturb', lambda f, sp: S.FunctionalQuadraticPerturb(f, 0.5, posvec(sp), 1.0)),
+        ('quadratic-perturb-coeff-only', lambda f, sp: S.FunctionalQuadraticPerturb(f, quadratic_coeff=0.5)),
+        ('quadratic-perturb-linear-only', lambda f, sp: S.FunctionalQuadraticPerturb(f, linear_term=posvec(sp))),
+        ('quadratic-perturb-constant-only', lambda f, sp: S.FunctionalQuadraticPerturb(f, constant=-1.5)),
+        ('quadratic-perturb-linear-constant', lambda f, sp: S.FunctionalQuadraticPerturb(f, linear_term=posvec(sp), constant=2.0)),
+        ('composition', lambda f, sp: f * odl.ScalingOperator(sp, 2.0)),
+        ('composition-multiply', lambda f, sp: S.FunctionalComp(f, odl.MultiplyOperator(posvec(sp)))),
+        ('composition-nonlinear', lambda f, sp: S.FunctionalComp(f, odl.PowerOperator(sp, 2))),
+        ('product', lambda f, sp: S.FunctionalProduct(f, S.L2Norm(sp))),
+        ('quotient', lambda f, sp: S.FunctionalQuotient(f, S.L2Norm(sp) + 1.0)),
+        ('quotient-reversed', lambda f, sp: S.FunctionalQuotient(S.L2NormSquared(sp) + 1.0, f + 1.0)),
+        ('infimal-convolution', lambda f, sp: S.InfimalConvolution(f, S.L2NormSquared(sp))),
+        ('bregman', lambda f, sp: S.BregmanDistance(f, posvec(sp), f.gradient(posvec(sp)))),
+        ('bregman-method', lambda f, sp: f.bregman(posvec(sp), f.gradient(posvec(sp)))),
+        ('default-convex-conj', lambda f, sp: (f + S.L2NormSquared(sp)).convex_conj),
+        ('convex-conj-of-convex-conj', lambda f, sp: f.convex_conj.convex_conj),
+    ])
+    for c in _combos(tier, OD([('kind', ['rn']), ('d1', list(D1)), ('inner', list(INNER))]), real_axes):
+        lab, sp = _sp(c)
+        _add_functional(add, c['d1'], _o(c, lab, 'inner'), lambda sp=sp, c=c: D1[c['d1']](INNER[c['inner']](sp), sp))
+    # proximal-only forms on single precision / complex spaces
+    for c in _combos(tier, OD([('d1', ['left-scaled', 'right-scaled', 'right-vector', 'scalar-sum', 'translated', 'quadratic-perturb',
+                                       'quadratic-perturb-linear-only', 'bregman']),
+                               ('inner', ['L1Norm', 'L2NormSquared', 'L2Norm'])]), prox_axes,
+                     lambda c: not (c['field'] == 'real' and c['prec'] == 'double')):
+        lab, sp = _sp(c)
+        _add_functional(add, c['d1'], _o(c, lab, 'inner'), lambda sp=sp, c=c: D1[c['d1']](INNER[c['inner']](sp), sp), DERIVED_PROX)
+    D2 = ['left-scaled', 'right-scaled', 'right-vector', 'sum', 'scalar-sum', 'translated', 'quadratic-perturb', 'quadratic-perturb-linear-only',
+          'composition', 'composition-multiply', 'product', 'quotient', 'bregman', 'right-scaled-neg', 'left-scaled-zero']
+    for c in _combos(tier, OD([('outer', D2), ('d1', D2), ('inner', list(INNER))]),
+                     _space_axes(fields=('real',), precs=('double',), shapes=('1d', '2d'), bdrys=('False', 'asym'))):
+        lab, sp = _sp(c)
+        o = _o(c, lab, 'inner')
+        o['chain'] = c['outer'] + '(' + c['d1'] + ')'
+        _add_functional(add, 'depth2', o, lambda sp=sp, c=c: D1[c['outer']](D1[c['d1']](INNER[c['inner']](sp), sp), sp))
+    # simple_functional
+    r3 = odl.rn(3)
+    _add_functional(add, 'simple_functional', {'given': 'all'}, lambda: S.functional.simple_functional(
+        r3, fcall=lambda x: x.inner(x), grad=lambda x: 2 * x, prox=S.proximal_l2_squared(r3), grad_lip=2,
+        convex_conj_fcall=lambda x: x.inner(x) / 4, convex_conj_grad=lambda x: x / 2, convex_conj_prox=S.proximal_l2_squared(r3, lam=0.25)))
+    _add_functional(add, 'simple_functional', {'given': 'grad-operator'}, lambda: S.functional.simple_functional(
+        r3, fcall=lambda x: x.inner(x), grad=odl.ScalingOperator(r3, 2.0)), ('self', 'gradient'))
 
 
 def other_recipes():
@@ -240,7 +510,7 @@ def all_recipes(tier):
         base.append(('lin', fam, opts, fn))
     for fam, opts, fn in NL.recipes(tier):
         base.append(('nl', fam, opts, lambda fn=fn: fn()[0]))
-    for fam, opts, fn in functional_recipes():
+    for fam, opts, fn in functional_recipes(tier):
         base.append(('fn', fam, opts, fn))
     for fam, opts, fn in other_recipes():
         base.append(('misc', fam, opts, fn))
